@@ -15,6 +15,7 @@ import (
 	"os"
 	"runtime"
 	"slices"
+	"sort"
 	"strings"
 
 	"gosym/smt"
@@ -689,6 +690,30 @@ func callSSA(i *interpreter, caller *frame, callpos token.Pos, fn *ssa.Function,
 	return fr.result
 }
 
+// nativeReplayable: the decision vector contains only decisions a native run can be steered through (branches and
+// values follow from the model, Choose decisions are replayed); schedule, select, clock and random decisions
+// cannot.
+func nativeReplayable(trace []Decision) bool {
+	for _, d := range trace {
+		switch d.K {
+		case "sc", "sel", "clk", "rnd":
+			return false
+		}
+	}
+	return true
+}
+
+// envNondets: the run drew values from the modelled environment (symbolic clock, math/rand), which a native run
+// takes from the real environment instead.
+func (i *interpreter) envNondets() bool {
+	for _, n := range i.nondets {
+		if strings.HasPrefix(n.name, "clock.") || strings.HasPrefix(n.name, "rand") {
+			return true
+		}
+	}
+	return false
+}
+
 // runFrame executes SSA instructions starting at fr.block and
 // continuing until a return, a panic, or a recovered panic.
 func runFrame(fr *frame) {
@@ -929,6 +954,21 @@ func runOnce(p *Program, harness string, opts Options, ctx *smt.Ctx, solver *smt
 	if len(i.inconclusive) > 0 && res.outcome == OutDone {
 		res.outcome = OutBound
 		res.detail = "solver returned unknown for assertion: " + strings.Join(i.inconclusive, "; ")
+	}
+	if res.outcome == OutDone && opts.wantSample != nil && len(i.threads) == 1 && len(i.nondets) <= 512 && len(i.violations) == 0 && nativeReplayable(i.trace) && !i.envNondets() && opts.wantSample(i.cover) {
+		sm := &ValSample{Model: i.modelFor(nil), Obs: i.obs}
+		if len(i.nondets) == 0 || len(sm.Model) > 0 {
+			for _, d := range i.trace {
+				if d.K == "ch" {
+					sm.Choices = append(sm.Choices, int(d.N))
+				}
+			}
+			for k := range i.cover {
+				sm.Cover = append(sm.Cover, k)
+			}
+			sort.Strings(sm.Cover)
+			res.sample = sm
+		}
 	}
 	if res.outcome == OutDone && opts.Replay == nil && len(i.nondets) > 0 && len(i.nondets) <= 64 {
 		// example inputs for the evidence samples (one model per completed path, cheap)
